@@ -226,6 +226,9 @@ func (w *walker) cond(where string, e ast.Expr, src []byte) {
 		}
 		w.defs = append(w.defs, def{base + "_l", doc + " (left operand)", params(cl), l})
 		w.defs = append(w.defs, def{base + "_r", doc + " (right operand)", params(cr), r})
+		if lit, ok := t.Y.(*ast.BasicLit); ok && lit.Kind == token.INT {
+			w.nats = append(w.nats, def{base + "_rnat", doc + " (right operand, integer)", "", lit.Value})
+		}
 	}
 }
 
@@ -338,6 +341,13 @@ func (w *walker) stmts(where string, list []ast.Stmt, src []byte) {
 							lhs = "const" + lhs
 						}
 						w.emit(where, lhs, vs.Values[0], vs.Pos(), text(w.fset, src, vs))
+						if lit, ok := vs.Values[0].(*ast.BasicLit); ok && lit.Kind == token.INT {
+							// integer constants (iteration caps: tmerc max_iter, Hannover maxiter) also as a Nat
+							key := where + "_nat" + vs.Names[0].Name
+							w.count[key]++
+							w.nats = append(w.nats, def{fmt.Sprintf("%s_%s_%d", strings.TrimSuffix(w.file, ".go"), key, w.count[key]),
+								fmt.Sprintf("%s:%d `%s` (integer)", w.file, w.fset.Position(vs.Pos()).Line, text(w.fset, src, vs)), "", lit.Value})
+						}
 					}
 				}
 			}
@@ -420,18 +430,26 @@ func main() {
 		total += len(w.defs) + len(w.nats)
 	}
 	b.WriteString("end GeomV.C08.Gen\n")
+	route, nroute, err := routeFile(*repo)
+	if err != nil {
+		fmt.Fprintln(os.Stderr, "c08 extract:", err)
+		os.Exit(1)
+	}
 	if *out == "" {
 		fmt.Print(b.String())
+		fmt.Print(route)
 		return
 	}
 	os.MkdirAll(*out, 0o755)
 	p := filepath.Join(*out, "GoProj.lean")
-	old, _ := os.ReadFile(p)
-	if string(old) != b.String() {
-		if err := os.WriteFile(p, []byte(b.String()), 0o644); err != nil {
-			fmt.Fprintln(os.Stderr, "c08 extract:", err)
-			os.Exit(1)
+	for _, f := range []struct{ path, text string }{{p, b.String()}, {filepath.Join(*out, "GoRoute.lean"), route}} {
+		old, _ := os.ReadFile(f.path)
+		if string(old) != f.text {
+			if err := os.WriteFile(f.path, []byte(f.text), 0o644); err != nil {
+				fmt.Fprintln(os.Stderr, "c08 extract:", err)
+				os.Exit(1)
+			}
 		}
 	}
-	fmt.Printf("c08 extract: %d definitions -> %s\n", total, p)
+	fmt.Printf("c08 extract: %d definitions -> %s, %d (transform.go) -> GoRoute.lean\n", total, p, nroute)
 }
